@@ -198,6 +198,10 @@ def run(ctx):
             if fam == 'shoc_standard' and (n // len(gen.FAMILIES)) % 2 == 1:
                 kw['transposed_coords'] = ('x_centre',)          # face longitude stored (i, j), face latitude (j, i)
                 kw['nj'], kw['ni'] = rng.choice([(2, 3), (3, 2), (3, 4)])
+            if fam == 'cf2d' and (n // len(gen.FAMILIES)) % 2 == 1:
+                # a curvilinear grid whose longitude is stored (x, y) next to a latitude stored (y, x)
+                kw.update(lon_transposed=True, bounds=False)
+                kw['ny'], kw['nx'] = rng.choice([(3, 3), (3, 4), (4, 3)])
             d = gen.any_dataset(rng, fam, **kw)
         ds = d.ds
         gdims = d.spec['kinds']['face']
